@@ -33,6 +33,14 @@ class CM:
 def g(a: int, b: int) -> int:
     return a * 10 + b
 
+@guppy.struct
+class Ctr:
+    v: int
+
+    @guppy
+    def add(self: "Ctr", d: int) -> int:
+        return self.v + d
+
 @guppy
 def setglob() -> None:
     global GLOB
@@ -44,9 +52,11 @@ def setglob() -> None:
 T = []
 
 
-def t(name, kind, body, top_only=False, helpers=""):
+def t(name, kind, body, top_only=False, helpers="", must_reject=False):
+    """must_reject: a clause Guppy cannot give its Python effect by design (`as` on a modifier block binds
+    nothing), checked with experimental features enabled: acceptance means the clause was dropped"""
     T.append({"name": name, "kind": kind, "body": body.strip("\n").split("\n"), "top_only": top_only,
-              "helpers": helpers})
+              "helpers": helpers, "must_reject": must_reject})
 
 
 # ---- statements ------------------------------------------------------------------------------
@@ -254,6 +264,92 @@ result("{T}k", g(b=1, a=2))
 t("call_keyword_mixed", "Call.keywords(mixed)", '''
 result("{T}k", g(1, b=2))
 ''')
+# surplus / repeated keywords where the call is checked against an expected type (annotated assignment,
+# return operand, argument of another call, method call, builtin): CPython raises TypeError
+t("kw_surplus_annassign", "Call.keywords(surplus, AnnAssign)", '''
+x{T}: int = g(1, 2, b=3)
+result("{T}k", x{T})
+''')
+t("kw_unknown_annassign", "Call.keywords(unknown, AnnAssign)", '''
+x{T}: int = g(1, 2, c=3)
+result("{T}k", x{T})
+''')
+t("kw_surplus_return", "Call.keywords(surplus, Return)", '''
+def h{T}() -> int:
+    return g(1, 2, zz=7)
+result("{T}k", h{T}())
+''')
+t("kw_surplus_argument", "Call.keywords(surplus, argument)", '''
+result("{T}k", g(g(1, 2, b=5), 3))
+''')
+t("kw_surplus_method", "Call.keywords(surplus, method)", '''
+c{T} = Ctr(1)
+x{T}: int = c{T}.add(1, d=100)
+result("{T}k", x{T})
+''')
+t("kw_valid_method", "Call.keywords(method)", '''
+c{T} = Ctr(1)
+x{T}: int = c{T}.add(d=100)
+result("{T}k", x{T})
+''')
+t("kw_surplus_builtin", "Call.keywords(surplus, builtin)", '''
+x{T}: int = abs(-3, key=2)
+result("{T}k", x{T})
+''')
+t("kw_surplus_builtin_arg", "Call.keywords(surplus, builtin as argument)", '''
+result("{T}k", g(abs(-3, key=2), 1))
+''')
+t("kw_valid_annassign", "Call.keywords(AnnAssign)", '''
+x{T}: int = g(1, b=2)
+result("{T}k", x{T})
+''')
+# `as` on a modifier block: nothing can be bound
+t("with_dagger_as", "withitem.optional_vars(dagger)", '''
+q{T} = qubit()
+with dagger as d{T}:
+    hgate(q{T})
+discard(q{T})
+result("{T}a", 1)
+''', must_reject=True)
+t("with_dagger_call_as", "withitem.optional_vars(dagger())", '''
+q{T} = qubit()
+with dagger() as d{T}:
+    hgate(q{T})
+discard(q{T})
+result("{T}a", 1)
+''', must_reject=True)
+t("with_control_as", "withitem.optional_vars(control)", '''
+q{T} = qubit()
+c{T} = qubit()
+with control(c{T}) as k{T}:
+    hgate(q{T})
+discard(q{T})
+discard(c{T})
+result("{T}a", 1)
+''', must_reject=True)
+t("with_power_as", "withitem.optional_vars(power)", '''
+q{T} = qubit()
+with power(2) as p{T}:
+    hgate(q{T})
+discard(q{T})
+result("{T}a", 1)
+''', must_reject=True)
+t("with_second_item_as", "withitem.optional_vars(second item)", '''
+q{T} = qubit()
+c{T} = qubit()
+with control(c{T}), dagger as d{T}:
+    hgate(q{T})
+discard(q{T})
+discard(c{T})
+result("{T}a", 1)
+''', must_reject=True)
+t("with_first_item_as", "withitem.optional_vars(first item)", '''
+q{T} = qubit()
+with dagger as d{T}, power(2):
+    hgate(q{T})
+discard(q{T})
+result("{T}a", 1)
+''', must_reject=True)
 t("call_starred", "Call(Starred)", '''
 p{T} = (1, 2)
 result("{T}k", g(*p{T}))
@@ -558,12 +654,43 @@ def build(tmpls, ctxs):
         elif cx == "nested":
             body += [f"def inner{i}() -> None:"] + indent(lines) + [f"inner{i}()"]
     src = MODULE_HEAD + "@guppy\ndef main() -> None:\n" + "\n".join(indent(body)) + "\n"
+    if any(tp.get("must_reject") for tp in tmpls):
+        src = "from guppylang.std.quantum import h as hgate\n" + src
     return src
+
+
+def evaluate_must_reject(src):
+    """the program contains a clause that cannot take effect: checked (experimental features enabled, so
+    that the modifier gate is not what rejects it) -> rejected | mismatch | crash"""
+    from guppylang_internals.experimental import enable_experimental_features
+
+    from vlib import runner
+
+    lm = None
+    with enable_experimental_features():
+        try:
+            lm = runner.load_module(runner.PRELUDE + src)
+            out = runner.check_def(lm.mod.main)
+        except BaseException as e:  # noqa: BLE001
+            if isinstance(e, (KeyboardInterrupt, SystemExit)):
+                raise
+            out = runner.classify_exception(e)
+        finally:
+            if lm is not None:
+                lm.dispose()
+    if out.kind == "rejected":
+        return "rejected", out.title, out.message[-400:]
+    if out.kind == "ok":
+        return "mismatch", "accepted", "accepted although the `as` clause of a modifier block cannot bind anything"
+    return "crash", f"{out.kind}:{out.title}", out.message[-1200:]
 
 
 def evaluate(src):
     """-> (status, bucket, detail)"""
     from vlib import pyref, runner
+
+    if "hgate" in src:
+        return evaluate_must_reject(src)
 
     try:
         ast.parse(src)
